@@ -68,6 +68,7 @@ fn run(ctx: &mut Ctx) {
     let quick = ctx.quick();
     ctx.bound("space", format!("buffer lengths 0..=96 (thorough: 0..=288), 8192-{r}..=8192+{r}, 16384-16..=16384+16; no magic, or first magic at every offset within {p} bytes of the buffer start / of offset 8192 / of the buffer end; stored length word in {{0,8,16,24,0x10010,L-i-8,L-i-1,L-i,L-i+1,0xFFFFFFFF}}; a second magic {{none, 8 bytes earlier, 5 bytes earlier, 16 bytes later}}; zero filler; buffer 8-aligned, flush against a PROT_NONE guard page when its length is a multiple of 8 and otherwise at most 7 bytes before it, those slack bytes varied between two fills", r = if quick { 40 } else { 136 }, p = if quick { 24 } else { 72 }));
     let arena = Arena::new(6);
+    scan_automaton(ctx, &arena);
     for l in lens(quick) {
         // case 0: no magic at all
         let mut cases: Vec<(Option<usize>, u32, u8)> = vec![(None, 0, 0)];
@@ -174,6 +175,89 @@ fn run(ctx: &mut Ctx) {
                     }
                 });
                 ctx.nontrivial();
+            });
+        }
+    }
+}
+
+/// One find_header call on an exact image; shared by the structured and the exhaustive-alphabet bodies.
+fn exec_image(ctx: &mut Ctx, arena: &Arena, img: &[u8]) {
+    let l = img.len();
+    let exp = reference(img);
+    arena.fill(arena::FILL_B);
+    let start = arena.len() - round8(l);
+    let p = arena.place_at(start, img);
+    let buf: &[u8] = unsafe { std::slice::from_raw_parts(p, l) };
+    let r = ctx.call("find_header", || Multiboot2Header::find_header(buf).map(|o| o.map(|(s, i)| (s.as_ptr() as usize - buf.as_ptr() as usize, s.len(), i))));
+    match r {
+        Out::Panic => {
+            ctx.ob("fh.panic", 1);
+            ctx.violation("c13/scan/panic", || format!("find_header panicked on {} (expected {:?})", json::hex(img), exp));
+        }
+        Out::Val(Ok(None)) => {
+            ctx.ob("fh.none", 1);
+            if exp == Exp::NoHeader {
+                ctx.class("scan:none");
+            } else {
+                ctx.violation("c13/scan/missed", || format!("find_header reports no header in {} but the magic occurs (expected {:?})", json::hex(img), exp));
+            }
+        }
+        Out::Val(Err(_)) => {
+            ctx.ob("fh.err", 1);
+            if exp == Exp::Error {
+                ctx.class("scan:error");
+            } else {
+                ctx.violation("c13/scan/spurious-error", || format!("find_header returned an error on {}, expected {:?}", json::hex(img), exp));
+            }
+        }
+        Out::Val(Ok(Some((off, len, idx)))) => {
+            ctx.ob("fh.off", off as u64);
+            ctx.ob("fh.len", len as u64);
+            match exp {
+                Exp::Found { at, len: elen } if at == off && at == idx as usize && elen == len => ctx.class("scan:found"),
+                _ => ctx.violation("c13/scan/wrong-result", || format!("find_header returned [{}..{}) index {} on {}, expected {:?}", off, off + len, idx, json::hex(img), exp)),
+            }
+        }
+    }
+}
+
+/// Every buffer over the magic's own byte alphabet {D6,50,52,E8} plus 00: all partial matches, overlaps and
+/// repetitions a scanning loop can meet.
+fn scan_automaton(ctx: &mut Ctx, arena: &Arena) {
+    const A: [u8; 5] = [0x00, 0xD6, 0x50, 0x52, 0xE8];
+    let maxl = if ctx.quick() { 8 } else { 10 };
+    ctx.bound("scan_automaton", format!("every byte string over {{00,D6,50,52,E8}} of length 0..={} as the whole buffer, and every such string of length 8 followed by a 16-byte tail whose first word is a stored length in {{0,16,24,0xFFFFFFFF}} (all partial matches, overlaps and repetitions of the magic a scan loop can meet, first occurrence at every offset 0..=8)", maxl));
+    for len in 0..=maxl {
+        for code in 0..5usize.pow(len as u32) {
+            let mut img = Vec::with_capacity(len);
+            let mut c = code;
+            for _ in 0..len {
+                img.push(A[c % 5]);
+                c /= 5;
+            }
+            ctx.leaf(|| J::obj().set("part", "scan-automaton").set("buffer", J::hex(&img)), |ctx| {
+                ctx.state_direct();
+                if img.contains(&0xD6) {
+                    ctx.nontrivial();
+                }
+                exec_image(ctx, arena, &img);
+            });
+        }
+    }
+    for code in 0..5usize.pow(8) {
+        for stored in [16u32, 0, 24, 0xFFFF_FFFF] {
+            let mut img = Vec::with_capacity(24);
+            let mut c = code;
+            for _ in 0..8 {
+                img.push(A[c % 5]);
+                c /= 5;
+            }
+            img.extend_from_slice(&stored.to_le_bytes());
+            img.extend_from_slice(&[0u8; 12]);
+            ctx.leaf(|| J::obj().set("part", "scan-automaton+tail").set("buffer", J::hex(&img)), |ctx| {
+                ctx.state_direct();
+                ctx.nontrivial();
+                exec_image(ctx, arena, &img);
             });
         }
     }
